@@ -24,12 +24,12 @@ fn main() -> Result<(), Box<dyn Error>> {
     let value =
         xml_xpath::query(dom, arg.expr.as_str(), &mut context).map_err(|v| v.to_string())?;
 
+    let mut buf = io::BufWriter::new(io::stdout().lock());
     match value {
         xml_xpath::eval::model::Value::Boolean(v) => {
-            println!("{}", v);
+            writeln!(buf, "{}", v)?;
         }
         xml_xpath::eval::model::Value::Node(nodes) => {
-            let mut buf = io::BufWriter::new(io::stdout().lock());
             for node in nodes {
                 if arg.no_indent {
                     buf.write_fmt(format_args!("{}\n", node))?;
@@ -40,12 +40,15 @@ fn main() -> Result<(), Box<dyn Error>> {
             }
         }
         xml_xpath::eval::model::Value::Number(v) => {
-            println!("{}", v);
+            writeln!(buf, "{}", v)?;
         }
         xml_xpath::eval::model::Value::Text(v) => {
-            println!("{}", v);
+            writeln!(buf, "{}", v)?;
         }
     }
+
+    // a write error must not be lost when the buffer is dropped.
+    buf.flush()?;
 
     Ok(())
 }
